@@ -230,7 +230,15 @@ def build(spec: List[Tuple[Any, str, str]], family: str, est: bool, alias: bool 
     """alias=True: the estimates carry another registered spelling of their label's name (an alias or the upper-case
     name) than the ground truth; the converted label - which is what pairing and scoring are about - is the same."""
     raw = (lambda lab: ALIAS.get(lab, lab.upper())) if (alias and est) else (lambda lab: None)  # noqa: E731
-    return [O.obj2d(None, lab, family=family, score=0.9 if est else 1.0, uuid=u, frame=c, raw_name=raw(lab)) for c, u, lab in spec]
+    # perception output is stamped with its own clock: a few microseconds to tens of milliseconds off the annotated frame
+    # (the evaluator looks ground truth up with a 75 ms tolerance); pairing is by camera, id and label only
+    from ..core import stable_int
+
+    dt = EST_STAMP_OFFSETS_US[stable_int("stamp", [(str(c), u, lab) for c, u, lab in spec], alias) % len(EST_STAMP_OFFSETS_US)] if est else 0
+    return [O.obj2d(None, lab, family=family, score=0.9 if est else 1.0, uuid=u, frame=c, raw_name=raw(lab), t=1_600_000_000_000_000 + dt) for c, u, lab in spec]
+
+
+EST_STAMP_OFFSETS_US = [0, 0, 1, 10_000, -30_000, 200, 50_000, 0, 74_000]
 
 
 def score_all(ctx: Ctx, results: List[Any], gts: List[Any], family: str, labels: List[str]) -> None:
